@@ -43,17 +43,25 @@ StrClasses == {<< >>, <<"A">>, <<"Q">>, <<"B">>, <<"N">>, <<"E">>, <<"C">>, <<"U
 LinkDescs ==
   [env : {"none", "empty", "one", "two"}, extras : {0, 1, 2}, mats : {0, 2}, prods : {0, 1},
    cmd : {"empty", "args"}, str : IF Tier = "quick" THEN {<< >>, <<"N">>, <<"S">>} ELSE StrClasses,
-   retval : {"absent", "zero", "neg", "max"}, stdout : {"absent", "present"}, sigs : {0, 2}, reserved : {"none"}]
+   retval : {"absent", "zero", "neg", "max"}, stdout : {"absent", "present"}, sigs : {"none", "two"}, reserved : {"none"}]
   \cup
   \* an EXTRA byproduct whose name is one of the three typed members (obtainable from the builder)
   [env : {"none"}, extras : {0}, mats : {0}, prods : {0}, cmd : {"empty"}, str : {<< >>},
-   retval : {"absent", "zero"}, stdout : {"absent", "present"}, sigs : {0},
+   retval : {"absent", "zero"}, stdout : {"absent", "present"}, sigs : {"none"},
    reserved : {"stdout", "stderr", "return-value"}]
+  \cup
+  \* signature lists with repeated signers ("dup": the same key twice in a row, "aba": with another in between,
+  \* "dupdup": two keys, each twice) - obtainable from Metablock::new
+  [env : {"none", "one"}, extras : {0}, mats : {0, 2}, prods : {0}, cmd : {"args"}, str : {<< >>},
+   retval : {"zero"}, stdout : {"present"}, sigs : {"dup", "aba", "dupdup", "one"}, reserved : {"none"}]
 LayoutDescs ==
   [steps : {0, 1, 2}, rules : {"none", "simple", "match_full", "match_nosrc", "match_nodst", "match_bare", "match_slash", "all"},
    thr : {"zero", "one", "max"}, keys : {"none", "ed", "rsa", "ec", "all"}, insp : {0, 1},
    str : IF Tier = "quick" THEN {<< >>, <<"Q">>, <<"U">>} ELSE StrClasses,
-   expires : {"epoch", "now", "far", "yearend"}, sigs : {0, 1}]
+   expires : {"epoch", "now", "far", "yearend"}, sigs : {"none", "one"}]
+  \cup
+  [steps : {1}, rules : {"simple"}, thr : {"one"}, keys : {"ed"}, insp : {0}, str : {<< >>},
+   expires : {"now"}, sigs : {"dup", "aba", "dupdup", "two"}]
 
 \* ---- attestation descriptors
 TsForms == {"none", "Z", "offset", "frac"}
